@@ -197,9 +197,15 @@ pub fn compare(impl_path: &str, model_path: &str) {
               let qn = strip_tags(qe, &mut tags).normalize();
               if *pe != qn {
                 total += 1;
+                // class tags excuse only a difference confined to judgement flags
+                let value_diff = pe.mask_judgements() != qn.mask_judgements();
+                if value_diff {
+                  tags.clear();
+                }
                 if admit(&tags) {
                   mismatches.push(serde_json::json!({"line": i, "elem": j, "impl": pe.to_string(), "model": qn.to_string(),
-                    "where": first_diff(pe, &qn), "classes": tags}));
+                    "where": first_diff(pe, &qn), "classes": tags,
+                    "kind": if value_diff { "model-vs-implementation" } else { "property-judgement" }}));
                 }
               }
             }
@@ -209,9 +215,14 @@ pub fn compare(impl_path: &str, model_path: &str) {
           let qn = strip_tags(&q, &mut tags).normalize();
           if p != qn {
             total += 1;
+            let value_diff = p.mask_judgements() != qn.mask_judgements();
+            if value_diff {
+              tags.clear();
+            }
             if admit(&tags) {
               mismatches.push(serde_json::json!({"line": i, "impl": p.to_string(), "model": qn.to_string(),
-                "where": first_diff(&p, &qn), "classes": tags}));
+                "where": first_diff(&p, &qn), "classes": tags,
+                "kind": if value_diff { "model-vs-implementation" } else { "property-judgement" }}));
             }
           }
         }
